@@ -59,14 +59,18 @@ def _c12_env():
         a: int
         b: str = 'x'
 
+    class ResModel2(BaseModel):
+        name: str
+
     class TEvent(BaseEvent):
         pass
 
     class Other(BaseEvent):
         pass
 
-    types = {'none': None, 'int': int, 'str': str, 'list_int': list[int], 'dict_str_int': dict[str, int], 'int_or_none': int | None,
-             'opt_str': Optional[str], 'union_int_str': Union[int, str], 'literal': Literal['a', 'b'], 'model': ResModel}
+    types = {'none': None, 'int': int, 'str': str, 'list_int': list[int], 'list_str': list[str], 'dict_str_int': dict[str, int], 'dict_str_str': dict[str, str],
+             'int_or_none': int | None, 'opt_str': Optional[str], 'opt_int': Optional[int], 'union_int_str': Union[int, str], 'union_str_float': Union[str, float],
+             'literal': Literal['a', 'b'], 'literal2': Literal['c', 1], 'model': ResModel, 'model2': ResModel2}
     return locals()
 
 
@@ -82,6 +86,18 @@ def conforms(tc, v, env):
         return isinstance(v, str)
     if tc == 'list_int':
         return isinstance(v, list) and all(isint(x) for x in v)
+    if tc == 'list_str':
+        return isinstance(v, list) and all(isinstance(x, str) for x in v)
+    if tc == 'dict_str_str':
+        return isinstance(v, dict) and all(isinstance(k, str) and isinstance(x, str) for k, x in v.items())
+    if tc == 'opt_int':
+        return v is None or isint(v)
+    if tc == 'union_str_float':
+        return isinstance(v, str) or (isinstance(v, float) and not isinstance(v, bool))
+    if tc == 'literal2':
+        return v in ('c', 1) and not isinstance(v, bool)
+    if tc == 'model2':
+        return isinstance(v, env['ResModel2'])
     if tc == 'dict_str_int':
         return isinstance(v, dict) and all(isinstance(k, str) and isint(x) for k, x in v.items())
     if tc == 'int_or_none':
@@ -111,6 +127,12 @@ def c12_values(tc, vc, env, rng, n_extra):
         ('union_int_str', 'conforming'): [1, 'a', 0, ''], ('union_int_str', 'coercible'): [], ('union_int_str', 'nonconforming'): [1.5, [1], {'a': 1}],
         ('literal', 'conforming'): ['a', 'b'], ('literal', 'coercible'): [], ('literal', 'nonconforming'): ['c', 1, ['a'], ''],
         ('model', 'conforming'): [M(a=1), M(a=2, b='y')], ('model', 'coercible'): [{'a': 1}, {'a': '3', 'b': 'z'}], ('model', 'nonconforming'): [{'a': 'x'}, {'b': 1}, 5, 'no', []],
+        ('list_str', 'conforming'): [[], ['a'], ['a', 'b']], ('list_str', 'coercible'): [('x', 'y')], ('list_str', 'nonconforming'): [[1, 2], [1], 'no', [['a']], {'a': 'b'}],
+        ('dict_str_str', 'conforming'): [{}, {'k': 'v'}], ('dict_str_str', 'coercible'): [], ('dict_str_str', 'nonconforming'): [{'k': 7}, {'a': 1, 'b': 2}, {1: 'x'}, ['k'], 3],
+        ('opt_int', 'conforming'): [3, 0], ('opt_int', 'coercible'): ['8'], ('opt_int', 'nonconforming'): ['abc', [2], 2.5],
+        ('union_str_float', 'conforming'): ['s', 1.5], ('union_str_float', 'coercible'): [], ('union_str_float', 'nonconforming'): [[1], {'a': 1}, None.__class__],
+        ('literal2', 'conforming'): ['c', 1], ('literal2', 'coercible'): [], ('literal2', 'nonconforming'): ['a', 2, 'b', [1]],
+        ('model2', 'conforming'): [env['ResModel2'](name='n')], ('model2', 'coercible'): [{'name': 'z'}], ('model2', 'nonconforming'): [{'a': 1}, {'name': [1]}, M(a=1), 7],
         ('none', 'conforming'): [0, 'x', [1, 'a'], {'k': object}, 1.5, object()], ('none', 'coercible'): [], ('none', 'nonconforming'): [],
     }
     if vc == 'None':
@@ -287,8 +309,10 @@ def check_c12(tier, seed):
     vcases, s2, g2 = tlc_cases('Results.tla', 'Results_views.cfg' if tier == 'quick' else 'Results_views3.cfg', workers=8)
     n_extra = 5 if tier == 'quick' else 200
     jobs = []
-    for i in range(0, len(tcases), 4):
-        jobs.append(('types', tcases[i:i + 4], seed * 1000 + i, n_extra))
+    for i in range(8 if tier == 'quick' else 32):
+        order = list(tcases)
+        random.Random(seed * 100 + i).shuffle(order)   # every order in one process: results must not depend on what was validated before
+        jobs.append(('types', order, seed * 1000 + i, n_extra))
     step = max(50, len(vcases) // 64)
     for i in range(0, len(vcases), step):
         jobs.append(('views', vcases[i:i + step], seed, 0))
